@@ -11,6 +11,7 @@ import tlslib, json
 OPS = ["rand_bytes", "sm2_keygen", "sm2_sign", "sm2_sign_fixlen", "sm2_do_sign", "sm2_sign_ctx", "sm2_encrypt", "sm2_encrypt_fixlen", "sm2_do_encrypt", "sm2_encrypt_ctx",
        "pkcs8_encrypt", "sm9_sign_master_keygen", "sm9_enc_master_keygen", "sm9_sign", "sm9_encrypt", "sm9_kem", "sm9_exch_1A", "x509_cert_sign", "cms_sign", "cms_envelop",
        "tls_record_iv"]
+PERSIST = ["sm2_sign_ctx_persist"]            # one context across a whole history (nonces precomputed in batches of 32)
 HISTORY = ["sm2_do_sign", "sm2_sign_ctx", "sm2_do_encrypt", "sm2_keygen", "sm9_sign", "tls_record_iv", "rand_bytes", "sm9_exch_1A"]
 
 
@@ -38,6 +39,11 @@ def api_part(c):
         for g in group:
             lines.append(g)
             owner.append(op)
+    # persistent contexts: a history of 70 signatures with the source failing at each draw index of the first three nonce batches
+    for op in PERSIST:
+        ndraws[op] = 0
+        for fa in [0] + (list(range(1, 100)) if not c.quick else list(range(30, 70)) + [1, 2, 96]):
+            lines.append({"op": op, "seed": 31, "failat": fa, "reps": 70}); owner.append(op)
     res = CL.run_script("entdrv", ["entdrv.c", "vh.c"], lines, tag="c18b", procs=1 if len(lines) < 50 else 12)
     per_op = {}
     for (case, evs, san), op in zip(res, owner):
@@ -97,7 +103,7 @@ def hs_part(c):
                     alert = e["rtype"] == 21 or (s["proto"] == 772 and e["rtype"] == 23 and e["n"] == 24)
                     evs.append({"e": "Emit", "kind": "alert" if alert else "record"})
                 elif e["e"] == "HsRet" and e["who"] == w:
-                    evs.append({"e": "OpEnd", "op": "hs", "rc": e["rc"], "draws": e["draws"], "entfail": e["entfail"], "failat": fa, "rep": 0, "outlen": 0, "eph": e.get("keys", "-") + key})
+                    evs.append({"e": "OpEnd", "op": "hs", "rc": e["rc"], "draws": e["draws"], "entfail": e["entfail"], "failat": fa, "rep": 0, "persist": 0, "outlen": 0, "eph": e.get("keys", "-") + key})
             execs.append((key + ":" + w, evs))
     return execs
 
